@@ -180,3 +180,49 @@ func H_C12_layout_chunker() {
 	}
 	vReach("end")
 }
+
+// H_C12_layout_chunker_large_section: a section larger than the maximum chunk size is split by paragraphs without
+// dropping or repeating any paragraph, whatever the mix of short and long paragraphs.
+//
+//symgo:harness prop=C12 kernel=K2-layout-chunker-split
+//symgo:desc one heading and 3..4 paragraphs whose lengths are enumerated over {8, 45, 75} bytes (marker + filler words); ChunkerConfig with MaxChunkSize 80, MinChunkSize 20, TargetChunkSize 60, no overlap: every paragraph marker occurs exactly once in the chunk texts, in order; indices, ids and totals consistent
+func H_C12_layout_chunker_large_section() {
+	cfg := DefaultChunkerConfig()
+	cfg.MaxChunkSize, cfg.MinChunkSize, cfg.TargetChunkSize, cfg.OverlapSize = 80, 20, 60, 0
+	n := vAnyIntIn(3, 4)
+	page := model.NewPage(612, 792)
+	page.Layout = &model.PageLayout{Headings: []model.HeadingInfo{{Level: 1, Text: "Title"}}}
+	fill := "lorem ipsum dolor sit amet consectetur adipiscing elit sed do eiusmod tempor incididunt ut labore"
+	var markers []string
+	for i := 0; i < n; i++ {
+		mk := "Pm" + string(rune('A'+i))
+		ln := []int{8, 45, 75}[vAnyIntIn(0, 2)]
+		txt := mk + " " + fill
+		txt = txt[:ln-1] + "."
+		page.Layout.Paragraphs = append(page.Layout.Paragraphs, model.ParagraphInfo{Text: txt})
+		markers = append(markers, mk)
+	}
+	doc := model.NewDocument()
+	doc.AddPage(page)
+	res, err := NewChunkerWithConfig(cfg).Chunk(doc)
+	vAssert("no-error", err == nil && res != nil)
+	var all strings.Builder
+	ids := map[string]bool{}
+	for i, c := range res.Chunks {
+		vAssert("index-sequence", c.Metadata.ChunkIndex == i)
+		vAssert("total-chunks", c.Metadata.TotalChunks == len(res.Chunks))
+		vAssert("unique-id", !ids[c.ID])
+		ids[c.ID] = true
+		all.WriteString(c.Text)
+		all.WriteString("\n")
+	}
+	text := all.String()
+	last := -1
+	for _, mk := range markers {
+		vAssert("paragraph-exactly-once", strings.Count(text, mk) == 1)
+		pos := strings.Index(text, mk)
+		vAssert("document-order", pos > last)
+		last = pos
+	}
+	vReach("end")
+}
